@@ -130,8 +130,12 @@ class MemoryStorageBackend(StorageBackend):
         )
 
     def list_functions(self) -> List[FunctionReference]:
+        # Only functions that have at least one memento: looking up or forgetting a call can
+        # leave an empty entry for its function behind in the defaultdict.
         return [
-            FunctionReference.from_qualified_name(key) for key in self.mementos.keys()
+            FunctionReference.from_qualified_name(key)
+            for key in self.mementos.keys()
+            if self.mementos[key]
         ]
 
     def list_mementos(self, fn: FunctionReference, limit: int = None) -> List[Memento]:
